@@ -4,7 +4,7 @@
    check_case instantiates the Section parameters of the model with these recorded tables and compares. *)
 From Coq Require Import List String Bool NArith ZArith.
 Import ListNotations.
-From VF Require Export common.Json gen.Gen_C07 C07.Model C07.StrictModel.
+From VF Require Export common.Json gen.Gen_C07 C07.Model C07.StrictModel C07.ParseModel.
 Open Scope string_scope.
 Open Scope list_scope.
 
@@ -105,7 +105,9 @@ Record case := {
   c_env : env;
   c_doc : obj;
   c_obs : outcome;                                   (* proof stage: Rejected, or Verified (successful signature checks) *)
-  c_strict : option (option json * bool) }.          (* compaction result, and whether strict validation passed *)
+  c_strict : option (option json * bool);            (* compaction result, and whether strict validation passed *)
+  (* string members of the accepted typed object: (field, top-level members in the order of the bytes, value found) *)
+  c_parsed : list (string * list (string * json) * json) }.
 
 Definition check_case (c : case) : bool :=
   outcome_match (run_check (c_env c) (c_doc c)) (c_obs c)
@@ -113,7 +115,9 @@ Definition check_case (c : case) : bool :=
   && match c_strict c with
      | None => true
      | Some (comp, ok) => Bool.eqb (strict_ok SFixed (c_doc c) comp) ok
-     end.
+     end
+  && forallb (fun t => let '(k, ms, v) := t in
+                       json_eqb (match parsed_field k ms with Some x => x | None => JNull end) v) (c_parsed c).
 
 Fixpoint mismatches_from (i : nat) (cs : list case) : list nat :=
   match cs with
